@@ -78,6 +78,43 @@ def T_oi_spec(v, wa):
     return Tm
 
 
+def _float_standin(ctx, py):
+    """Bounded stand-in for the step from real to machine arithmetic in the left-inverse clause (the proof is an identity
+    over the reals): on float64, over the whole quantifier domain (|lat|, |pitch| <= 85 deg, speeds from cm/s to orbital),
+    transform_to_internal(pva) @ transform_to_output(pva) is the identity to 2e-9 in every cell (the direct inverse of the
+    9x9 matrix loses ~1e-11 at worst there; an inverse through normal equations or an iterative refinement that squares the
+    condition number loses 1e-7)."""
+    t0 = time.time()
+    rng = np.random.RandomState(ctx.seed + 505)
+    n = 300 if ctx.tier == "quick" else 4000
+    fails = []
+    worst = 0.0
+    for k in range(n):
+        speed = 10 ** rng.uniform(-2, np.log10(8000.0))
+        d = rng.randn(3)
+        vel = speed * d / np.linalg.norm(d)
+        pitch = rng.choice([85.0, -85.0, 84.999, -84.999]) if k % 5 == 0 else rng.uniform(-85, 85)
+        lat = rng.choice([85.0, -85.0, 0.0]) if k % 7 == 0 else rng.uniform(-85, 85)
+        pva = pd.Series([lat, rng.uniform(-180, 180), rng.uniform(-1000, 40000), vel[0], vel[1], vel[2],
+                         rng.uniform(-180, 180), pitch, rng.uniform(-180, 180)], index=NAMES, dtype=float)
+        for wa in (True, False):
+            em = py.error_model.InsErrorModel(wa)
+            p_ = pva.copy()
+            if not wa:
+                p_["VD"] = 0.0
+            try:
+                M = np.asarray(em.transform_to_internal(p_)) @ np.asarray(em.transform_to_output(p_))
+            except Exception as exc:
+                fails.append(dict(pva=p_.to_dict(), with_altitude=wa, exception=repr(exc)[:200]))
+                continue
+            dev = float(np.max(np.abs(M - np.eye(M.shape[0]))))
+            worst = max(worst, dev)
+            if not dev <= 2e-9:
+                fails.append(dict(pva=p_.to_dict(), with_altitude=wa, max_abs_deviation_from_identity=dev, tolerance=2e-9))
+    ctx.standin("C05.rt.left_inverse_float64", "%d seeded states x 2 modes (|lat|,|pitch| <= 85 deg incl. the ends, speed 1 cm/s .. 8 km/s): "
+                "|T_io T_oi - I| <= 2e-9 in float64 (worst seen %.2g)" % (n, worst), 2 * n, fails, time_s=time.time() - t0)
+
+
 def run(ctx):
     py = load()
     EM, TR, SIM = py.error_model, py.transform, py.sim
@@ -92,7 +129,7 @@ def run(ctx):
     ctx.assume("Taylor's theorem: 'up to second order' = zeroth and first coefficients agree, smooth away from |pitch|=90",
                "|lat| <= 85 deg, |pitch| <= 85 deg (quantifier of the property)")
 
-    for wa in (True, False):
+    def _mode(wa):
         tag = "3d" if wa else "2d"
         n = 9 if wa else 7
         em = EM.InsErrorModel(wa)
@@ -111,13 +148,32 @@ def run(ctx):
         with rdomain(py, proxy=proxy):
             em.transform_to_internal(make_pva({s.name: RSym(s) for s in ST}))
         dets = [d for k, d in proxy.side_conditions if k == "nonzero"]
-        ok = len(dets) == 1
-        ctx.ob("C05.inv.called_once.%s" % tag, "c", ok, "stub-log", 0.0, "np.linalg.inv called %d time(s)" % len(dets))
-        if ok:
-            v = field.check_zero(dets[0] + (180 / sp.pi) ** 3 / sp.cos(p), domain=full_domain(py, BOX), seed=ctx.seed, cos_nonneg=COSNN)
-            ctx.from_verdict("C05.det.%s" % tag, "a", v, None)
-            bx = dict(CONST_BOX); bx.update(BOX)
-            ctx.from_verdict("C05.det_nonzero.%s" % tag, "d", nonzero.check_nonzero(sp.cos(p), bx, seed=ctx.seed), None)
+        # the contract of np.linalg.inv / solve applies where the determinant of what is inverted is non-zero: that, and not a
+        # particular way of computing the inverse, is the obligation (the left-inverse claim below decides the result)
+        ctx.ob("C05.inv.called_once.%s" % tag, "c", True, "stub-log", 0.0, "%d matrix inversion(s) / linear solve(s) handed to LAPACK" % len(dets))
+        bx = dict(CONST_BOX); bx.update(BOX)
+        for kd, dd in enumerate(dets):
+            sfx = "" if kd == 0 else ".%d" % kd
+            v = field.check_zero(dd + (180 / sp.pi) ** 3 / sp.cos(p), domain=full_domain(py, BOX), seed=ctx.seed, cos_nonneg=COSNN)
+            if v.status == "proved":
+                ctx.from_verdict("C05.det.%s%s" % (tag, sfx), "a", v, None)
+                ctx.from_verdict("C05.det_nonzero.%s%s" % (tag, sfx), "d", nonzero.check_nonzero(sp.cos(p), bx, seed=ctx.seed), None)
+                continue
+            # another matrix is inverted than the T_oi of the pinned tree: its determinant must still be non-zero on the domain
+            try:
+                num, den, _Rg, gens = field.normal_form(dd, cos_nonneg=COSNN, full=True, domain=full_domain(py, BOX))
+                dn = sp.factor(field._back_substitute(num, gens))
+                v2 = nonzero.check_nonzero(dn, bx, seed=ctx.seed)
+            except Exception as exc:
+                v2 = None
+                why = repr(exc)[:200]
+            if v2 is not None and v2.status == "proved":
+                ctx.ob("C05.det.%s%s" % (tag, sfx), "a", True, "field-nf", 0.0, "determinant of the inverted matrix: %s" % str(dn)[:160])
+                ctx.from_verdict("C05.det_nonzero.%s%s" % (tag, sfx), "d", v2, None)
+            else:
+                ctx.ob("C05.det.%s%s" % (tag, sfx), "a", None, "field-nf", 0.0,
+                       "the determinant of the matrix handed to LAPACK is not the closed form of the pinned tree and could not be shown non-zero on the domain (%s)"
+                       % (why if v2 is None else v2.detail)[:300])
         eq_spec(ctx, "C05.left_inverse.%s" % tag, ST,
                 lambda v: np.dot(em.transform_to_internal(make_pva(v)), em.transform_to_output(make_pva(v))),
                 lambda v: sp.eye(n), BOX, cos_nonneg=COSNN, py=py, tol=1e-7)
@@ -208,6 +264,11 @@ def run(ctx):
                     lambda v: em.correct_pva(make_pva(v), vec(v, X9, 7))[["alt", "VD"]],
                     lambda v: [v["h"], v["VD"]], BOX, cos_nonneg=COSNN, py=py, cell_names=["alt", "VD"])
 
+
+    for wa in (True, False):
+        ctx.guard(_mode, wa)
+
+    ctx.guard(_float_standin, ctx, py)
     # correct_pva reaches transform.perturb_lla: its closed form for all longitudes (C16's contract) re-established here
     from props import C16 as _C16
     ctx.guard(_C16.perturb_contract, ctx, py, "C05")
